@@ -97,12 +97,18 @@ def gen_group(rng, h, letters, alpha_ws, d=0):
 
 def classify_nonidempotent(h, t, d, r, r2):
     """known, documented classes of non-idempotence (see DESIGN.md §6 F15/F16)."""
-    name = h._strip(t.replace("_", " "))
     import re
 
-    name = re.sub(" +", " ", name)
+    def strip(x):
+        while True:
+            y = x.strip().strip(MARKS)
+            if y == x:
+                return x
+            x = y
+
+    name = re.sub(" +", " ", strip(t.replace("_", " ")))
     if name.startswith(":"):
-        name = h._strip(name[1:])
+        name = strip(name[1:])
     if r[2].startswith(":"):
         return "double-colon"
     if ":" in name:
